@@ -252,6 +252,40 @@ def gen_raising_line(rng, depth):
         rng.choice([b"", b"h.example"]) + b"\t" + rng.choice(BAD_PORTS)
 
 
+def effective_selector(line, dirsel):
+    """generator-side only: where a link line points once fields are stripped (None for info lines)"""
+    t = u(line)
+    if "\t" not in t:
+        return None
+    f = [x.strip() for x in t.split("\t")]
+    sel = f[1] or f[0][1:]
+    if sel[:1] != "/" and sel[:4] != "URL:":
+        sel = ("" if dirsel == "/" else dirsel) + "/" + sel
+    return sel
+
+
+def tame(line, dirsels):
+    """keep link selectors free of '.', '..' and empty path components (DESIGN D15: such selectors reach
+    vfs.exists unfiltered and name nodes the scratch tree does not list; C01's subject, not C09's)"""
+    for d in dirsels:
+        sel = effective_selector(line, d)
+        if sel is None or sel.startswith("URL:") or sel.startswith("/URL:"):
+            continue
+        comps = sel.split("/")[1:]
+        if comps and comps[-1] == "":
+            comps = comps[:-1]
+        if any(c in ("", ".", "..") for c in comps) or "\x00" in sel:
+            return False
+    return True
+
+
+def gen_tamed(rng, f, dirsels):
+    while True:
+        line = f()
+        if tame(line, dirsels):
+            return line
+
+
 def assemble(rng, lines):
     mode = rng.choice(["lf", "lf", "crlf", "mixed"])
     out = b""
@@ -263,19 +297,34 @@ def assemble(rng, lines):
     return out
 
 
+HANDMADE = {
+    # the shipped examples/gophermap in spirit: text, blank lines, links with host and port
+    "example": (b"Welcome to Pygopherd!  You can place your documents\nin /var/gopher for future use.\n\n"
+                b"Some links to get you started:\n\n1Pygopherd Home\t/devel/gopher/pygopherd\tgopher.quux.org\t70\n"
+                b"1Quux.Org Mega Server\t/\tgopher.quux.org\t70\n\nWelcome to the world of Gopher and enjoy!\n"),
+    # doc/standards/gophermap.txt
+    "bucktooth": (b"1Lots of stuff\tstuff\r\n1src\t\r\n1gopher.ptloma.edu home\t\tgopher.ptloma.edu\t70\r\n"
+                  b"hweb\tURL:http://example.org/\r\n0local text\ta.txt\r\n"),
+    "minimal": b"0a\ta.txt\n",
+    "empty": b"",
+    "blank": b"\n\r\n\n",
+}
+
+
 def gen_map(rng, stream, depth, is_file, special=None):
-    if special == "empty":
-        return b""
-    if special == "blank":
-        return b"\n\r\n\n"
+    if special is not None:
+        return HANDMADE[special]
     n = rng.randrange(4, 13)
+    d = DEPTH_DIRS[depth]
+    dirsel = "/" + d if d else "/"
+    dirsels = [dirsel, dirsel.rstrip("/") + "/x.gophermap"]      # either way the code may resolve relative links
     if stream == "wf":
-        lines = [gen_wf_line(rng, depth) for _ in range(n)]
+        lines = [gen_tamed(rng, lambda: gen_wf_line(rng, depth), dirsels) for _ in range(n)]
         lines.insert(rng.randrange(len(lines) + 1), gen_wf_link(rng, depth, force_relative=True))
     elif stream == "padded":
-        lines = [gen_padded_line(rng, depth) for _ in range(n)]
+        lines = [gen_tamed(rng, lambda: gen_padded_line(rng, depth), dirsels) for _ in range(n)]
     else:
-        lines = [gen_wf_line(rng, depth) for _ in range(n)]
+        lines = [gen_tamed(rng, lambda: gen_wf_line(rng, depth), dirsels) for _ in range(n)]
         lines.insert(rng.randrange(len(lines) + 1), gen_raising_line(rng, depth))
         if rng.random() < 0.4:
             lines.insert(rng.randrange(len(lines) + 1), gen_raising_line(rng, depth))
@@ -391,13 +440,14 @@ def run(tier):
     cov = chk.coverage
     thorough = tier == "thorough"
     hits = {}
+    chk.notes["seconds_build_and_proofs"] = round(__import__("time").time() - chk.t0, 1)
 
     def hit(tag, replay):
         hits.setdefault(tag, []).append(replay)
 
     # ---------------- small component correspondences: int(), dirname/basename ----------------
     ints = ["", "70", " 70 ", "+70", "-70", "- 70", "7_0", "_70", "70_", "7__0", "0_7", "007", "+", "-", "0x10", "1e3",
-            "\x0b70\x0c", "\x1c70", "70\x1f", "7 0", "--7", "+-7", "1" * 4300, "1" * 4301, "0" * 4301, "1_" * 2200 + "1",
+            "\x0b70\x0c", "\x1c70", "70\x1f", "7 0", "--7", "+-7", "0" * 4299 + "7", "1" * 4301, "0" * 4301, "0_" * 4299 + "7", "0_" * 4300 + "7", "-" + "0" * 4299 + "5", "9" * 40,
             "\t7\n", "7\r", "00", "-0", "+0_0", "9" * 25, "7_", "_", "__", "1_000_000", "+_1"]
     alpha = "0123456789_+- \t\x0b\x1cx."
     for _ in range(1500 if thorough else 400):
@@ -457,7 +507,7 @@ def run(tier):
                               "tree": sel_tree, "config": CONFIG})
 
     # ---------------- worlds ----------------
-    nworld = {"wf": 24, "padded": 10, "raising": 6} if thorough else {"wf": 9, "padded": 4, "raising": 3}
+    nworld = {"wf": 40, "padded": 20, "raising": 10} if thorough else {"wf": 12, "padded": 6, "raising": 4}
     worlds = []
     for stream, cnt in nworld.items():
         for wi in range(cnt):
@@ -465,8 +515,9 @@ def run(tier):
             for depth, d in enumerate(DEPTH_DIRS):
                 for is_file in (False, True):
                     special = None
-                    if stream == "wf" and wi == 0 and depth == 3:
-                        special = "blank" if is_file else "empty"
+                    if stream == "wf" and wi == 0:
+                        special = {(0, False): "example", (1, True): "minimal", (1, False): "bucktooth", (2, True): "bucktooth",
+                                   (3, True): "blank", (3, False): "empty"}.get((depth, is_file))
                     data = gen_map(rng, stream, depth, is_file, special)
                     path = (d + "/" if d else "") + ("x.gophermap" if is_file else "gophermap")
                     maps[path] = data
@@ -483,12 +534,15 @@ def run(tier):
             worlds.append({"op": "gm_world", "tree": tree, "config": CONFIG, "maps": [m["selector"] for m in meta],
                            "requests": reqs, "_meta": meta, "_rmeta": rmeta, "_stream": stream,
                            "_existing": existing_selectors(tree)})
+    import time as _time
+    t_impl0 = _time.time()
     wres = impl_run_parallel([{k: v for k, v in w.items() if not k.startswith("_")} for w in worlds],
                              chunks=min(len(worlds), 8))
     for r in wres:
         if not r["ok"]:
             raise RuntimeError(r["err"] + "\n" + r.get("tb", ""))
 
+    chk.notes["seconds_implementation_worlds"] = round(_time.time() - t_impl0, 1)
     tcases = []                 # chk_twin
     seen_lines = set()
     wjobs = []                  # per world: (preamble, case literals, keys)
@@ -643,6 +697,7 @@ def run(tier):
 
     # ---------------- K: model in Coq vs implementation ----------------
     import concurrent.futures
+    t_coq0 = _time.time()
 
     def eval_world(arg):
         k, (pre, wcases, wkeys) = arg
@@ -654,6 +709,7 @@ def run(tier):
         fut_small = [exr.submit(coq_eval, "C09", nm, IMPORTS, ck, cs, sh, 600, PRE) for nm, ck, cs, sh in small]
         world_out = list(exr.map(eval_world, enumerate(wjobs)))
         (m_int, e_int, n1), (m_path, e_path, n2), (m_sel, e_sel, n3), (mt, et, n5) = [f.result() for f in fut_small]
+    chk.notes["seconds_model_evaluation_in_coq"] = round(_time.time() - t_coq0, 1)
     errors = [e for e in (e_int, e_path, e_sel, et) if e]
     mis = {True: [], False: []}         # model variant -> mismatching keys
     nshards = n1 + n2 + n3 + n5
@@ -681,6 +737,8 @@ def run(tier):
         "mismatches": {"int": len(m_int), "path": len(m_path), "selection": len(m_sel), "twin": len(mt),
                        "vs_repaired_model": len(mis[True]), "vs_pinned_model": len(mis[False])},
         "implementation_matches_model_variant": variant, "errors": errors,
+        "mismatch_detail_vs_pinned_model": brief(mis[False]),
+        "mismatch_detail_vs_repaired_model": brief([k for k in mis[True] if not k["is_mapfile"]]),
     }
     cov["oracle"] = stats
     cov["generator"] = {"worlds": nworld, "maps_per_world": 8, "depths": ["/" + d if d else "/" for d in DEPTH_DIRS],
